@@ -2,8 +2,15 @@
 //! properties: C16
 //! note: what the router believes about one candidate hop: CandidateRouteHop::{fees, htlc_minimum_msat, cltv_expiry_delta, effective_capacity} return exactly the policy the hop's own source advertises (gossip direction, route hint, blinded pay-info) and nothing for the payer's own first hop
 //! trusted: R5: CandidateRouteHop and its five candidate structs are skeletons with the fields these four accessors read (the real ones hold references into the graph, the hints and the first-hop list; references are owned values here); DirectedChannelInfo::direction() / effective_capacity() external_body accessors (effective_capacity is proved in unit u16d); RoutingFees, EffectiveCapacity extracted
+//! trusted: assume_specification for core::cmp::max / core::cmp::min (std definitions): present in every unit so that a change that introduces them is verified instead of being rejected by the tool
 use vstd::prelude::*;
 verus! {
+use vstd::std_specs::cmp::*;
+use core::cmp;
+pub assume_specification<T: core::cmp::Ord>[core::cmp::max::<T>](a: T, b: T) -> (r: T)
+    ensures T::obeys_cmp_spec() ==> r == (if b.cmp_spec(&a) == core::cmp::Ordering::Less { a } else { b });
+pub assume_specification<T: core::cmp::Ord>[core::cmp::min::<T>](a: T, b: T) -> (r: T)
+    ensures T::obeys_cmp_spec() ==> r == (if b.cmp_spec(&a) == core::cmp::Ordering::Less { b } else { a });
 //@extract lightning-types/src/routing.rs :: struct RoutingFees
 //@derive Clone Copy
 //@end
